@@ -281,6 +281,16 @@ fn matrix_entries(out: &mut Vec<(String, String)>, nm: usize) {
                 for k in 0..=r1 + 1 {
                     verdict(out, "Matrix::swap_rows", format!("{}x{} rows {} {}", r1, c1, i, k), i >= r1 || k >= r1, false, probe(&setup1, &key1, &|s| { s.swap_rows(i, k); }));
                 }
+                // swap_elem(row_1, col_1, row_2, col_2): a named method with stated row / column arguments (not one of the raw
+                // (i,j) index operators the property leaves out): an argument out of range must not reach another element
+                if i <= r1.max(c1) + 1 && r1 <= 3 && c1 <= 3 {
+                    for j in 0..=c1 + 1 {
+                        for (i2, j2) in [(0usize, 0usize), (r1.saturating_sub(1), c1.saturating_sub(1)), (r1, 0), (0, c1)] {
+                            let bad = i >= r1 || j >= c1 || i2 >= r1 || j2 >= c1;
+                            verdict(out, "Matrix::swap_elem", format!("{}x{} ({},{}) <-> ({},{})", r1, c1, i, j, i2, j2), bad, false, probe(&setup1, &key1, &|s| { s.swap_elem(i, j, i2, j2); }));
+                        }
+                    }
+                }
             }
         }
     }
@@ -392,6 +402,38 @@ fn sparse_entries(out: &mut Vec<(String, String)>) {
                             verdict(out, "Sparse::solve_bicg (itol)", format!("{} itol {}", ar, itol), true, true, probe(&setup3, &key3, &|s| { let bb = s.1.clone(); let _ = s.0.solve_bicg(&bb, &mut s.2, 2, 1e-8, itol); }));
                         }
                     }
+                }
+            }
+            // raw compressed-column arrays: every way in which the three arrays can disagree with each other or with the shape
+            {
+                let setup0 = || ();
+                let key0 = |_: &()| String::new();
+                // a well-formed matrix with one entry (0,0) and, if there is a second column, one entry (rr-1, 1)
+                let good = || -> (Vec<f64>, Vec<usize>, Vec<usize>) {
+                    let mut cs = vec![0usize; c + 1];
+                    let (mut val, mut ri) = (vec![1.0], vec![0usize]);
+                    cs[1] = 1;
+                    if c >= 2 {
+                        val.push(2.0);
+                        ri.push(rr - 1);
+                        cs[2] = 2;
+                    }
+                    for k in 2..=c {
+                        cs[k] = cs[k].max(cs[k - 1]);
+                    }
+                    cs[c] = val.len();
+                    (val, ri, cs)
+                };
+                let ar = format!("{}x{}", rr, c);
+                verdict(out, "Sparse::from_vecs (well-formed)", ar.clone(), false, true, probe(&setup0, &key0, &|_| { let (v, r0, cs) = good(); let _ = Sparse::from_vecs(rr, c, v, r0, cs); }));
+                verdict(out, "Sparse::from_vecs (val longer than row_index)", ar.clone(), true, true, probe(&setup0, &key0, &|_| { let (mut v, r0, cs) = good(); v.push(9.0); let _ = Sparse::from_vecs(rr, c, v, r0, cs); }));
+                verdict(out, "Sparse::from_vecs (row_index longer than val)", ar.clone(), true, true, probe(&setup0, &key0, &|_| { let (v, mut r0, cs) = good(); r0.push(0); let _ = Sparse::from_vecs(rr, c, v, r0, cs); }));
+                verdict(out, "Sparse::from_vecs (col_start too short)", ar.clone(), true, true, probe(&setup0, &key0, &|_| { let (v, r0, mut cs) = good(); cs.pop(); let _ = Sparse::from_vecs(rr, c, v, r0, cs); }));
+                verdict(out, "Sparse::from_vecs (col_start too long)", ar.clone(), true, true, probe(&setup0, &key0, &|_| { let (v, r0, mut cs) = good(); let l = *cs.last().unwrap(); cs.push(l); let _ = Sparse::from_vecs(rr, c, v, r0, cs); }));
+                verdict(out, "Sparse::from_vecs (row index = rows)", ar.clone(), true, true, probe(&setup0, &key0, &|_| { let (v, mut r0, cs) = good(); r0[0] = rr; let _ = Sparse::from_vecs(rr, c, v, r0, cs); }));
+                verdict(out, "Sparse::from_vecs (last col_start != number of entries)", ar.clone(), true, true, probe(&setup0, &key0, &|_| { let (v, r0, mut cs) = good(); *cs.last_mut().unwrap() += 1; let _ = Sparse::from_vecs(rr, c, v, r0, cs); }));
+                if c >= 2 {
+                    verdict(out, "Sparse::from_vecs (col_start decreasing)", ar.clone(), true, true, probe(&setup0, &key0, &|_| { let (v, r0, mut cs) = good(); cs[1] = 2; cs[2] = 1; if c == 2 { cs[2] = 1; } let _ = Sparse::from_vecs(rr, c, v, r0, cs); }));
                 }
             }
             for i in 0..=rr + 1 {
